@@ -201,7 +201,7 @@ def render_layout(types, rnd, bracket_newlines=0.25, extra_blanks=0.2, comments=
             if depth > 0 and r < bracket_newlines:
                 gap = rnd.choice(['\n', ' \n ', '\r\n', '\n\n\t', ' \r\n\r\n '])
                 if comments and rnd.random() < comments:
-                    gap = ' # c, ) ] ; \'' + gap
+                    gap = ' # c, ) ] ; \x0c \u2028 \'' + gap
             elif r < bracket_newlines + extra_blanks:
                 gap = rnd.choice(['  ', '\t', ' \t ', '   '])
             parts.append(gap)
@@ -209,7 +209,7 @@ def render_layout(types, rnd, bracket_newlines=0.25, extra_blanks=0.2, comments=
         nl = ';' if (t == 'NEWLINE' and (depth != 0)) else newline
         tk, s = tok(t, rnd, simple, nl, pools)
         if t == 'NEWLINE' and comments and s != ';' and rnd.random() < comments:
-            c = '# note ; ( "'
+            c = '# note ; ( \x0b \x85 "'
             parts.append(c + ' ')
             pos += len(c) + 1
         toks.append(tk)
